@@ -114,12 +114,12 @@ impl SyncOp {
                     } else {
                         (None, None)
                     }
-                } else if timestamp1 < timestamp2 {
-                    // prefer the later modification
+                } else if timestamp1 < timestamp2 || (timestamp1 == timestamp2 && value1 < value2) {
+                    // prefer the later modification or, if the timestamps are the same, the
+                    // greater value, so that every replica picks the same winner whichever of
+                    // the two operations reached the server first
                     (None, Some(operation2))
                 } else {
-                    // prefer the later modification or, if the modifications are the same,
-                    // just choose one of them
                     (Some(operation1), None)
                 }
             }
